@@ -73,9 +73,9 @@ class Flow(object):
     def add_name(self, name, local=True):
         # type: (Name, bool) -> None
         name.scope = self.scope
-        if name.name in self.scope.globals:
+        if local and name.name in self.scope.globals:
             self.scope.top.add_global(name)
-        elif name.name in self.scope.nonlocals:
+        elif local and name.name in self.scope.nonlocals:
             # the binding belongs to an enclosing function: its names stay visible here
             pass
         else:
